@@ -1,5 +1,6 @@
 import Urandom.Driver.Word
 import Urandom.Driver.Distr
+import Urandom.Driver.Block
 open Urandom.Driver
 
 def answer (line : String) : String :=
@@ -20,6 +21,9 @@ def answer (line : String) : String :=
       | "f01" => f01Request kv
       | "bern" => bernRequest kv
       | "std" => stdRequest kv
+      | "chacha" => chachaRequest kv
+      | "slpblock" => slpblockRequest kv
+      | "specblock" => specblockRequest kv
       | _ => none
     r.getD "bad-request"
 
